@@ -193,20 +193,47 @@ def rule_grisu(col, facts):
     loc = facts.const_loc(name)
     col.floor(R, "GRISU_POWERS_OF_TEN rows", len(table), 87, loc)
     # fast_decimal_power: index*STEP - FIRST ; fast_binary_power: floor(log2 10^q) - 63
-    fd = facts.fn(WF + "compact::fast_decimal_power")
-    consts = sorted(body_int_consts(fd))
+    fd = facts.fn(WF + "compact::fast_decimal_power", required=False)
     step = first = None
-    for b in fd.blocks:
-        for st in b["s"]:
-            if st[0] == "=" and st[2][0] == "bin":
-                k = fold(fd, st[2][3])
-                if st[2][1].startswith("Mul") and k is not None:
-                    step = k
-                if st[2][1].startswith("Sub") and k is not None:
-                    first = -k
-    if step is None or first is None:
-        col.bad(R, "fast_decimal_power-shape", "not `index*STEP - FIRST` any more (constants %s)" % consts, fd.loc())
-        return
+    if fd is not None:
+        consts = sorted(body_int_consts(fd))
+        for b in fd.blocks:
+            for st in b["s"]:
+                if st[0] == "=" and st[2][0] == "bin":
+                    k = fold(fd, st[2][3])
+                    if st[2][1].startswith("Mul") and k is not None:
+                        step = k
+                    if st[2][1].startswith("Sub") and k is not None:
+                        first = -k
+        if step is None or first is None:
+            col.bad(R, "fast_decimal_power-shape", "not `index*STEP - FIRST` any more (constants %s)" % consts, fd.loc())
+            return
+    else:
+        # the helper was inlined: read `FIRST + idx * STEP` off the argument of fast_binary_power in cached_grisu_power
+        from rules.core import op_expr, strip_casts, callee_name, last_seg
+        cg0 = facts.fn(WF + "compact::cached_grisu_power")
+        def const_of(x):
+            x = strip_casts(x)
+            if x[0] == "k" and isinstance(x[1], int):
+                return x[1]
+            if x[0] == "kc" and isinstance(x[2], int):
+                return x[2]
+            return None
+        for bb, c, a, d, t in cg0.calls():
+            if last_seg(callee_name(c)) != "fast_binary_power":
+                continue
+            e = strip_casts(op_expr(cg0, a[0]))
+            if e[0] == "bin" and e[1] in ("Add", "Sub"):
+                for lin, k, sign in ((e[2], e[3], 1 if e[1] == "Add" else -1), (e[3], e[2], 1)):
+                    lin = strip_casts(lin)
+                    if const_of(k) is not None and lin[0] == "bin" and lin[1] == "Mul" and e[1] == "Add" or (const_of(k) is not None and lin[0] == "bin" and lin[1] == "Mul" and lin is strip_casts(e[2])):
+                        ms = [const_of(lin[2]), const_of(lin[3])]
+                        ms = [m for m in ms if m is not None]
+                        if len(ms) == 1:
+                            step, first = ms[0], sign * const_of(k)
+        if step is None or first is None:
+            col.assumed("not-applied", "TBL-grisu:decimal-exponent-of-index", "neither fast_decimal_power nor an inlined `FIRST + idx * STEP` argument of fast_binary_power was found: the table's exponents are not decided")
+            return
     from rules.tbl_write_float import mul_shift_shape as mss
     fb = facts.fn(WF + "compact::fast_binary_power")
     sh = mss(fb)
